@@ -27,6 +27,8 @@ CONSTANTS Types, Steps, GridOnly, Dump, Cap
 
 Sent == 99
 
+TScaled5 == {[w |-> 5, s |-> TRUE, pw |-> 5, bw |-> 0], [w |-> 5, s |-> FALSE, pw |-> 5, bw |-> 0],
+             [w |-> 5, s |-> TRUE, pw |-> 5, bw |-> 10], [w |-> 5, s |-> FALSE, pw |-> 5, bw |-> 10]}
 TScaled6 == {[w |-> 6, s |-> TRUE, pw |-> 6, bw |-> 0], [w |-> 6, s |-> FALSE, pw |-> 6, bw |-> 0],
              [w |-> 6, s |-> TRUE, pw |-> 6, bw |-> 12], [w |-> 6, s |-> FALSE, pw |-> 6, bw |-> 12]}
 TScaled8 == {[w |-> 8, s |-> TRUE, pw |-> 8, bw |-> 0], [w |-> 8, s |-> FALSE, pw |-> 8, bw |-> 0],
@@ -174,7 +176,7 @@ Stops == Dom(ty)
 RefSound == (Done /\ form = "fwd" /\ ty.bw = 0) => \A b \in Stops :
   LET q == RefSeq("fwd", start, b, step) r == RefSeq("rev", start, b, step) n == Len(q) IN
   /\ \A j \in 1..n : InRange(q[j], start, b, step)
-  /\ Cardinality({x \in Dom(ty) : InRange(x, start, b, step)}) = n      \* with the next line: q enumerates exactly the members
+  /\ Cardinality({x \in MinOf(ty)..MaxOf(ty) : InRange(x, start, b, step)}) = n      \* with the next line: q enumerates exactly the members
   /\ \A j \in 1..(n - 1) : q[j + 1] = q[j] + step
   /\ \A j \in 1..n : r[j] = q[n + 1 - j] /\ r[j] = RefElem("rev", start, step, n, j) /\ q[j] = RefElem("fwd", start, step, n, j)
   /\ (n > 0 => q[1] = start)
